@@ -153,7 +153,17 @@ def run_case(case, ctx):
             # a submodule (manual .gitmodules, as the repository's own tests do): excluded from whichever directory the tool is run
             (root / "vendor" / "lib").mkdir(parents=True)
             (root / "vendor" / "lib" / "lib.c").write_text("int lib;\n")
-            (root / ".gitmodules").write_text('[submodule "vendor/lib"]\n\tpath = vendor/lib\n\turl = https://example.com/lib.git\n')
+            # a second submodule right next to the first, an ignored directory between and around them, ignored files
+            (root / "vendor" / "lib2").mkdir(parents=True)
+            (root / "vendor" / "lib2" / "lib2.c").write_text("int lib2;\n")
+            (root / "vendor" / "kept").mkdir(parents=True)
+            (root / "vendor" / "kept" / "k.py").write_text("# SPDX-FileCopyrightText: 2020 K\n# SPDX-License-Identifier: 0BSD\n")
+            (root / "vendor" / "lib1.5-build").mkdir(parents=True)
+            (root / "vendor" / "lib1.5-build" / "o.py").write_text("ignored\n")
+            (root / "out.log").write_text("ignored\n")
+            (root / ".gitignore").write_text("*.log\n*-build/\n")
+            (root / ".gitmodules").write_text('[submodule "vendor/lib"]\n\tpath = vendor/lib\n\turl = https://example.com/lib.git\n'
+                                              '[submodule "vendor/lib2"]\n\tpath = vendor/lib2\n\turl = https://example.com/lib2.git\n')
             trees.git(root, "add", "-A", check=False)
             trees.git(root, "commit", "-q", "-m", "init", check=False)
         os.symlink(str(root), base / "via_link")
